@@ -246,6 +246,18 @@ func c01Enumerate(tier string, emit func(j c01Job)) {
 			emit(c01Job{N: n, Card: 501, Events: evs, Bounds: bs, Class: "card502"})
 			n++
 		}
+		// more records in one block than one allocation step of the block's per-record arrays holds (4000): the arrays grow
+		// while the block is open
+		var evs3 []string
+		for i := 0; i < 4100; i++ {
+			evs3 = append(evs3, c01Event(i, T0+int64(i)*3, fmt.Sprintf(`"c":%d`, i%7)))
+		}
+		for _, b := range []int{1, 2} {
+			bs := make([]int, len(evs3))
+			bs[len(bs)-1] = b
+			emit(c01Job{N: n, Card: 501, Events: evs3, Bounds: bs, Class: "block4100"})
+			n++
+		}
 		big := strings.Repeat("z", 62000)
 		evs2 := []string{
 			c01Event(0, T0, `"a":"s","big":"`+big+`"`),
@@ -330,7 +342,11 @@ func c01Run(w *kernel.Worker, j *c01Job, rep *kernel.Report) (*c01Result, error)
 		rep.Transition(1)
 		flushed = i + 1
 		last := i == len(j.Events)-1
-		qs := []Q{{Index: idx, Text: "*", Start: T0 - 1, End: T0 + (1 << 33), Size: 1000, Nulls: true}} // includeNulls: empty strings are rendered (""), absent columns as null
+		size := 1000
+		if flushed+100 > size {
+			size = flushed + 100
+		}
+		qs := []Q{{Index: idx, Text: "*", Start: T0 - 1, End: T0 + (1 << 33), Size: size, Nulls: true}} // includeNulls: empty strings are rendered (""), absent columns as null
 		if last && len(j.Events) <= 8 {
 			for k := 0; k < flushed; k++ {
 				qs = append(qs, Q{Index: idx, Text: fmt.Sprintf(`id="e%d"`, k), Start: T0 - 1, End: T0 + (1 << 33), Size: 1000, Nulls: true})
@@ -526,7 +542,7 @@ func c01Nontrivial(j *c01Job) bool {
 func C01() int {
 	rep := kernel.NewReport("C01", "model_checking")
 	rep.Rule = "all event sequences ≤ depth over the value alphabet for one column × every placement of {none, flush, flush+rotate} " +
-		"between events × cardinality limits, plus shape histories (nested/array/two-column/dotted twin, timestamp gaps) and " +
+		"between events × cardinality limits, plus shape histories (nested/array/two-column/dotted twin, timestamp gaps), a block of 4100 records (its per-record arrays grow while it is open) and " +
 		"dedicated >limit-cardinality / near-record-size histories; checked after every flushed prefix against the Go reference " +
 		"model (match-all + one point query per event). non-trivial = ≥2 events and (≥2 value kinds in the column or a boundary between events)"
 	rep.Assume = []string{"PQS disabled (named tunable) so checking prefixes does not change later layout",
